@@ -182,6 +182,7 @@ def run(run, ix, tier):
     check_special_values(run, ix, 'S-R2', sorted(ELEMENTARY))
     check_cancelling_sums(run, ix)
     check_exact_root_exits(run, ix)
+    check_half_integer_route(run, ix)
     # ---- B-R8: real-axis delegation of the complex exp/trig family ---------------------------------
     run.rule('B-R8', floor=10, desc='complex exp/trig kernels delegate real-axis arguments to the real kernel')
     for name in AXIS_FAMILY:
@@ -392,3 +393,53 @@ def check_exact_root_exits(run, ix):
         run.fail(Finding('E-X1', LIBELE, 'exact_nthroot', 'def exact_nthroot', 'the candidates %s do not include '
                          'both neighbours of the truncated approximation (the approximation may lie on either '
                          'side of the root)' % sorted(cands), line=h.lineno))
+
+
+# --------------------------------------------------------------------------- E-X2
+def check_half_integer_route(run, ix):
+    """E-X2.  (perfect square)**(k/2) is an exact input/output pair (9**1.5 = 27, 4**5000.5 = 2**10001): it is exact
+    only because an exponent k/2 is routed through an exact square root followed by an integer power; the general
+    exp(t*log s) formula carries a relative error of |t log s| 2**-wp and returns the neighbouring number under a
+    directed mode.  In mpf_pow and mpc_pow_mpf the branch for a binary exponent of -1 must therefore cover EVERY
+    odd mantissa: its test is the exponent test alone, every path through it returns, and every return is built
+    from the square-root kernel."""
+    run.rule('E-X2', floor=2, desc='every half-integer exponent is routed through the exact square root')
+    for rel, name, sq in ((LIBELE, 'mpf_pow', 'mpf_sqrt'), (LIBMPC, 'mpc_pow_mpf', 'mpc_sqrt')):
+        f = ix.func(rel, name)
+        cands = [x for x in f.node.body if isinstance(x, ast.If)
+                 and any(isinstance(c, ast.Compare) and len(c.ops) == 1 and isinstance(c.ops[0], ast.Eq) and
+                         sorted([norm(c.left), norm(c.comparators[0])])[0] == '-1' and
+                         sorted([norm(c.left), norm(c.comparators[0])])[1].endswith('exp')
+                         for c in ast.walk(x.test))]
+        if not cands:
+            run.fail(Finding('E-X2', rel, name, 'def %s' % name, 'no branch for exponents k/2 (binary exponent -1): '
+                             'x**(k/2) of a perfect square goes through exp(t log x) and is not exact under a '
+                             'directed rounding mode (9**1.5 rounded down is 26.999999999999996)', line=f.lineno))
+            continue
+        br = cands[0]
+        problems = []
+        if not isinstance(br.test, ast.Compare):
+            problems.append('its test `%s` restricts the mantissa of the exponent, so other half-integers '
+                            '(1.5, 2.5, -1.5 ...) fall through to exp(t log x)' % norm(br.test))
+        from .c06 import _always_leaves
+        if not _always_leaves(br.body):
+            problems.append('a path through it does not return')
+        rets = [r for r in ast.walk(br) if isinstance(r, ast.Return)]
+        names_in = {n.id for n in ast.walk(br) if isinstance(n, ast.Name)}
+        assigned = {}
+        for a in ast.walk(br):
+            if isinstance(a, ast.Assign) and len(a.targets) == 1 and isinstance(a.targets[0], ast.Name):
+                assigned[a.targets[0].id] = a.value
+        for r in rets:
+            srcs = [norm(c.func) for c in ast.walk(r.value) if isinstance(c, ast.Call)]
+            for n_ in ast.walk(r.value):
+                if isinstance(n_, ast.Name) and n_.id in assigned:
+                    srcs += [norm(c.func) for c in ast.walk(assigned[n_.id]) if isinstance(c, ast.Call)]
+            if sq not in srcs:
+                problems.append('`%s` does not use %s' % (norm(r, 60), sq))
+        if problems:
+            run.fail(Finding('E-X2', rel, name, 'if %s' % norm(br.test), 'the half-integer branch is incomplete: %s; '
+                             '(perfect square)**(k/2) is then not exact (9**1.5 rounded down is 26.999999999999996, '
+                             '4**5000.5 != 2**10001)' % '; '.join(problems), line=br.lineno))
+        else:
+            run.ok('E-X2', '%s: `if %s` returns %s-based values on all %d exits' % (name, norm(br.test), sq, len(rets)))
